@@ -4,26 +4,46 @@ From DV Require Import Base.Tactics Base.NList Base.Rot Model.C01 Model.C01_ops.
 From G Require Import C01_gen C01_defs.
 Open Scope Z_scope.
 
+(* what the regenerated arithmetic has to satisfy, whatever its shape: the input is returned as it is only when the
+   reduced shift is 0, and otherwise the pieces are the last (s mod n) elements followed by the first n - s mod n *)
+Lemma r_noop_sound s n : 0 < n -> r_noop s n = true -> s mod n = 0.
+Proof. intros Hn. cbv beta zeta delta [r_noop]. case_ifs; intros H; try discriminate H; lia. Qed.
+
+Lemma r_segments_spec s n : 0 < n -> r_noop s n = false ->
+  r_segments s n = [(n - s mod n, s mod n); (0, n - s mod n)].
+Proof.
+  intros Hn. cbv beta zeta delta [r_noop r_segments].
+  case_ifs; intros H; try discriminate H; repeat f_equal; lia.
+Qed.
+
 Lemma roll1_gen_is_rotr {A} (s : Z) (l : list A) : l <> [] ->
   roll1_gen s l = rotr (Z.to_nat (s mod Z.of_nat (length l))) l.
 Proof.
   intros Hne. assert (Hn : (0 < length l)%nat) by (destruct l; [congruence|cbn; lia]).
-  unfold roll1_gen, rotr. cbv beta zeta delta [r_shift r_noop r_segments].
+  unfold roll1_gen, rotr.
   set (n := length l) in *.
   assert (Hm : 0 <= s mod Z.of_nat n < Z.of_nat n) by (apply Z.mod_pos_bound; lia).
   assert (E : (Z.to_nat (s mod Z.of_nat n) mod n)%nat = Z.to_nat (s mod Z.of_nat n)) by (apply Nat.mod_small; lia).
   rewrite E.
-  destruct (s mod Z.of_nat n =? 0) eqn:E0.
-  - replace (Z.to_nat (s mod Z.of_nat n) =? 0)%nat with true by (symmetry; apply Nat.eqb_eq; lia). reflexivity.
-  - replace (Z.to_nat (s mod Z.of_nat n) =? 0)%nat with false by (symmetry; apply Nat.eqb_neq; lia).
-    cbn [map concat fst snd]. rewrite app_nil_r.
-    replace (Z.to_nat (Z.of_nat n - s mod Z.of_nat n)) with (n - Z.to_nat (s mod Z.of_nat n))%nat by lia.
-    cbn [Z.to_nat skipn]. f_equal.
-    apply firstn_all2. rewrite skipn_length. fold n. lia.
+  destruct (r_noop s (Z.of_nat n)) eqn:E0.
+  - apply r_noop_sound in E0; [|lia]. rewrite E0. reflexivity.
+  - rewrite (r_segments_spec s (Z.of_nat n)) by (lia || exact E0).
+    destruct (Z.to_nat (s mod Z.of_nat n) =? 0)%nat eqn:E1.
+    + apply Nat.eqb_eq in E1. assert (E2 : s mod Z.of_nat n = 0) by lia. rewrite E2.
+      cbn [map concat fst snd]. rewrite app_nil_r, Z.sub_0_r, Nat2Z.id. cbn [Z.to_nat firstn skipn app].
+      apply firstn_all2. fold n. lia.
+    + cbn [map concat fst snd]. rewrite app_nil_r.
+      replace (Z.to_nat (Z.of_nat n - s mod Z.of_nat n)) with (n - Z.to_nat (s mod Z.of_nat n))%nat by lia.
+      cbn [Z.to_nat skipn]. f_equal.
+      apply firstn_all2. rewrite skipn_length. fold n. lia.
 Qed.
 
 Lemma shift_amounts n : 0 <= n -> fftshift_amount n = n / 2 /\ ifftshift_amount n = (n + 1) / 2.
 Proof. intros. cbv beta zeta delta [fftshift_amount ifftshift_amount]. split; reflexivity || lia. Qed.
+
+(* with dim=None every axis is shifted: the regenerated default axis list is 0, 1, .., rank-1 *)
+Lemma default_axes i : 0 <= i -> fftshift_default_axis i = i /\ ifftshift_default_axis i = i.
+Proof. intros. cbv beta zeta delta [fftshift_default_axis ifftshift_default_axis]. split; case_ifs; lia. Qed.
 
 (* the spectrum-shift helpers on a list: mutual inverses for every length *)
 Lemma shifts_inverse_1d {A} (l : list A) :
@@ -68,17 +88,17 @@ Hypothesis F_Finv : forall b t, F b (Finv b t) = t.
 Notation runs := (run T vc vr ishift fshift F Finv).
 
 (* what the regenerated sequences are: shift, transform, shift back, wrapped by the layout views *)
-Lemma fft2_shape c n ci t : runs c n ci fft2_ops t =
+Lemma fft2_shape c n ci t : runs c n ci (fft2_tab c ci) t =
   (if ci then vr else fun x => x) ((if c then fshift else fun x => x) (F n ((if c then ishift else fun x => x) ((if ci then vc else fun x => x) t)))).
-Proof. unfold fft2_ops. destruct c, ci; reflexivity. Qed.
+Proof. unfold fft2_tab. destruct c, ci; reflexivity. Qed.
 
-Lemma ifft2_shape c n ci t : runs c n ci ifft2_ops t =
+Lemma ifft2_shape c n ci t : runs c n ci (ifft2_tab c ci) t =
   (if ci then vr else fun x => x) ((if c then fshift else fun x => x) (Finv n ((if c then ishift else fun x => x) ((if ci then vc else fun x => x) t)))).
-Proof. unfold ifft2_ops. destruct c, ci; reflexivity. Qed.
+Proof. unfold ifft2_tab. destruct c, ci; reflexivity. Qed.
 
-Lemma ifft2_fft2_id c n ci t : runs c n ci ifft2_ops (runs c n ci fft2_ops t) = t.
+Lemma ifft2_fft2_id c n ci t : runs c n ci (ifft2_tab c ci) (runs c n ci (fft2_tab c ci) t) = t.
 Proof. rewrite ifft2_shape, fft2_shape. destruct c, ci; rewrite ?vc_vr, ?ishift_fshift, ?Finv_F, ?fshift_ishift, ?vr_vc; reflexivity. Qed.
 
-Lemma fft2_ifft2_id c n ci t : runs c n ci fft2_ops (runs c n ci ifft2_ops t) = t.
+Lemma fft2_ifft2_id c n ci t : runs c n ci (fft2_tab c ci) (runs c n ci (ifft2_tab c ci) t) = t.
 Proof. rewrite ifft2_shape, fft2_shape. destruct c, ci; rewrite ?vc_vr, ?ishift_fshift, ?F_Finv, ?fshift_ishift, ?vr_vc; reflexivity. Qed.
 End Skeleton.
